@@ -528,54 +528,61 @@ def worldExports (f : Checker → ItemKind → ItemKind → R × Checker) (bt : 
       | .covariant => (.err s!"component is missing expected {bt.descKind b} export `{String.ofList k}`", c)
       | .contravariant => (.err s!"component has unexpected {bt.descKind b} export `{String.ofList k}`", c)
 
-/-- `SubtypeChecker::is_subtype` (memo lookup, `is_subtype_`, memo insert on success) with
-`is_subtype_`, `ty`, `interface`, `world` inlined.  `isSubtype fuel c at a bt b`. -/
+/-- `SubtypeChecker::interface`; `fwd c x y` runs `is_subtype(x, at, y, bt)` -/
+def checkInterface (fwd : Checker → ItemKind → ItemKind → R × Checker) (c : Checker)
+    (at_ : Types) (ia : Nat) (bt : Types) (ib : Nat) : R × Checker :=
+  if at_.uid == bt.uid && ia == ib then (.ok, c)
+  else
+    match at_.interfaces[ia]?, bt.interfaces[ib]? with
+    | some x, some y => instanceExports fwd bt x.exports c y.exports
+    | _, _ => (.panic "interface index", c)
+
+/-- `SubtypeChecker::world` (no id shortcut); `bwd c y x` runs `is_subtype(y, bt, x, at)`.
+An error inside the import loop returns with the variance stack still inverted. -/
+def checkWorld (fwd bwd : Checker → ItemKind → ItemKind → R × Checker) (c : Checker)
+    (at_ : Types) (wa : Nat) (bt : Types) (wb : Nat) : R × Checker :=
+  match at_.worlds[wa]?, bt.worlds[wb]? with
+  | some x, some y =>
+    let (prev, c1) := c.invert
+    match worldImports bwd at_ prev y.imports c1 x.imports with
+    | (.ok, c2) =>
+      match c2.revert with
+      | none => (.panic "mismatched stack", c2)
+      | some c3 => worldExports fwd bt x.exports c3 y.exports
+    | r => r
+  | _, _ => (.panic "world index", c)
+
+/-- `SubtypeChecker::is_subtype_` and `ty`: dispatch on the two kinds; `fuel` bounds the value level -/
+def isSubtypeInner (fwd bwd : Checker → ItemKind → ItemKind → R × Checker) (fuel : Nat) (c : Checker)
+    (at_ : Types) (a : ItemKind) (bt : Types) (b : ItemKind) : R × Checker :=
+  let v := c.kind
+  match a, b with
+  | .type ta, .type tb =>
+    match ta, tb with
+    | .resource ra, .resource rb => (checkResource v at_ ra bt rb, c)
+    | .func fa, .func fb => (checkFunc v fuel at_ fa bt fb, c)
+    | .value va, .value vb => (checkValueType v at_ bt fuel va vb, c)
+    | .interface ia, .interface ib => checkInterface fwd c at_ ia bt ib
+    | .world wa, .world wb => checkWorld fwd bwd c at_ wa bt wb
+    | .module ma, .module mb => checkModule c at_ ma bt mb
+    | ta, tb => (mismatch v (at_.descTy ta) (bt.descTy tb), c)
+  | .func fa, .func fb => (checkFunc v fuel at_ fa bt fb, c)
+  | .instance ia, .instance ib => checkInterface fwd c at_ ia bt ib
+  | .component wa, .component wb => checkWorld fwd bwd c at_ wa bt wb
+  | .module ma, .module mb => checkModule c at_ ma bt mb
+  | .value va, .value vb => (checkValueType v at_ bt fuel va vb, c)
+  | a, b => (mismatch v (at_.descKind a) (bt.descKind b), c)
+
+/-- `SubtypeChecker::is_subtype`: memo lookup, `is_subtype_`, memo insert on success.
+`isSubtype fuel c at a bt b`; one unit of fuel per nesting level of item kinds. -/
 def isSubtype : Nat → Checker → Types → ItemKind → Types → ItemKind → R × Checker
   | 0, c, _, _, _, _ => (.panic "fuel", c)
   | fuel + 1, c, at_, a, bt, b =>
     let key := (GKind.mk' at_ a, GKind.mk' bt b)
     if c.cache.contains key then (.ok, c)
     else
-      let sameUid := at_.uid == bt.uid
-      let fwd (c : Checker) (x y : ItemKind) := isSubtype fuel c at_ x bt y
-      let bwd (c : Checker) (y x : ItemKind) := isSubtype fuel c bt y at_ x
-      let interface (c : Checker) (ia ib : Nat) : R × Checker :=
-        if sameUid && ia == ib then (.ok, c)
-        else
-          match at_.interfaces[ia]?, bt.interfaces[ib]? with
-          | some x, some y => instanceExports fwd bt x.exports c y.exports
-          | _, _ => (.panic "interface index", c)
-      let world (c : Checker) (wa wb : Nat) : R × Checker :=
-        match at_.worlds[wa]?, bt.worlds[wb]? with
-        | some x, some y =>
-          let (prev, c1) := c.invert
-          match worldImports bwd at_ prev y.imports c1 x.imports with
-          | (.ok, c2) =>
-            match c2.revert with
-            | none => (.panic "mismatched stack", c2)
-            | some c3 => worldExports fwd bt x.exports c3 y.exports
-          | r => r
-        | _, _ => (.panic "world index", c)
-      let v := c.kind
-      let vf := fuel
-      let res : R × Checker :=
-        match a, b with
-        | .type ta, .type tb =>
-          match ta, tb with
-          | .resource ra, .resource rb => (checkResource v at_ ra bt rb, c)
-          | .func fa, .func fb => (checkFunc v vf at_ fa bt fb, c)
-          | .value va, .value vb => (checkValueType v at_ bt vf va vb, c)
-          | .interface ia, .interface ib => interface c ia ib
-          | .world wa, .world wb => world c wa wb
-          | .module ma, .module mb => checkModule c at_ ma bt mb
-          | ta, tb => (mismatch v (at_.descTy ta) (bt.descTy tb), c)
-        | .func fa, .func fb => (checkFunc v vf at_ fa bt fb, c)
-        | .instance ia, .instance ib => interface c ia ib
-        | .component wa, .component wb => world c wa wb
-        | .module ma, .module mb => checkModule c at_ ma bt mb
-        | .value va, .value vb => (checkValueType v at_ bt vf va vb, c)
-        | a, b => (mismatch v (at_.descKind a) (bt.descKind b), c)
-      match res with
+      match isSubtypeInner (fun c x y => isSubtype fuel c at_ x bt y) (fun c y x => isSubtype fuel c bt y at_ x)
+          fuel c at_ a bt b with
       | (.ok, c') => (.ok, { c' with cache := key :: c'.cache })
       | r => r
 
